@@ -261,12 +261,17 @@ fn one_run(dir: &str, files: &[PathBuf], inputs: &[Input], base: &[&str], sched:
             Err(e) => Err(format!("PANIC {}", runner::panic_msg(&e))),
         });
     });
-    let res = rx.recv_timeout(Duration::from_secs(WATCHDOG_S));
+    let wd = std::env::var("VERIF_C04_WATCHDOG").ok().and_then(|x| x.parse().ok()).unwrap_or(WATCHDOG_S);
+    let res = rx.recv_timeout(Duration::from_secs(wd));
     vh::enable_log(false);
     vh::set_scheduler(0);
     let log = vh::take_log();
     let line = match res {
-        Err(_) => format!("{} HANG", sched),
+        Err(_) => {
+            // not C04's business (C05), but say where it stopped: the normalised trace of the stuck run
+            let (rounds, trace) = normalise(&log, inputs);
+            format!("{} HANG R={} T={}", sched, rounds, trace)
+        }
         Ok(Err(e)) => format!("{} ERR {}", sched, e.replace(['\n', '|'], " ")),
         Ok(Ok(())) => match std::fs::read(&out) {
             Err(e) => format!("{} ERR cannot read the archive: {}", sched, e),
